@@ -10,6 +10,29 @@ TECH = ("contract-based deductive verification: own VC generator (txvc) symbolic
 
 # pid -> (level text, level note, design ref, technique suffix)
 CLAIMED = {
+    "C02": (
+        "Proved, grammar side: _update_attr_multiplicities (the recursive walk of visit_textx_rule over the Arpeggio "
+        "expression of one rule) against spec functions taken from the statement - c1(r) = the largest number "
+        "(saturated at 2) of assignments to an attribute outside repetitions along one way through r (sequence: sum, "
+        "ordered choice: largest branch, reference to another rule: 0), rep(r) = an assignment inside a repetition. "
+        "Contract, for one ARBITRARY attribute name (an uninterpreted constant, so for every name): the set of seen "
+        "assignments afterwards is the set before plus the names with c1 >= 1, and the attribute is many-valued "
+        "afterwards exactly when it was before, or rep, or c1 >= 2, or (c1 >= 1 and it had been seen before) - with "
+        "the empty set of the top-level call: a list exactly when one object can collect more than one value. The "
+        "recursion is used through its own contract, the two loops over rule.nodes carry prefix folds (cmax / csum / "
+        "rany) as invariants, two statement regions (multiplicity in force; the node's own assignment) are units of "
+        "their own; mult_lt by complete enumeration (FIN, 16 pairs). Model side: the assignment branches of "
+        "process_node (a plain value is stored, or appended at the end when the slot is a list; each list element "
+        "appended exactly once at the end, earlier elements in place; 'Multiple assignments' is raised only if the "
+        "slot already holds a truthy non-list value) and _init_obj_attrs (a list exactly for many-valued attributes). "
+        "ASSUMED, not proved: Arpeggio hands one object at most c1 assignment nodes outside repetitions (T-ARP) - that "
+        "is what makes the 'Multiple assignments' raise and the overwrite of a falsy earlier value unreachable; the "
+        "bounded battery (276 generated rule bodies / ~840 sentences in the quick tier, 643 / ~2000 in the thorough "
+        "tier) checks exactly that end to end with an oracle that does not look at textX's code. One defect repaired: "
+        "0508619 (branches of an ordered choice did not share the seen set).",
+        "Partial correctness of the recursion (no variant: the expression tree is finite by construction, not proved). "
+        "Implicit exceptions (KeyError for an assignment whose attribute is not in _tx_attrs) are not excluded.",
+        "DESIGN.md 5/C02, 11.11, Appendix C", "bounded battery for the end-to-end statement (T-ARP link)"),
     "C01": (
         "Partial - the TRANSLATION from grammar constructs to Arpeggio expressions and the attribute defaults, not "
         "Arpeggio's PEG interpreter. Proved: visit_assignment's operator statement (`+=` builds OneOrMore over exactly "
